@@ -245,6 +245,11 @@ inductive FieldRole where
       `inlineSuppressions` – inline suppressions enter `nomsg` only when the flag is set (Preprocessor::inlineSuppressions) and
       `nomsg` is dumped into toolinfo; `vfOptions` – Settings::setCheckLevel assigns constants per `checkLevel` -/
   | via (hashed : String)
+  /-- switching the field *off* (field name with a trailing `-`) cannot expose stale data because what the field produces is
+      consumed only by runs that have it on: the per-file unusedFunction data is read by
+      CheckUnusedFunctions::analyseWholeProgram, which CppCheck::analyseWholeProgram calls only under
+      `checks.isEnabled(Checks::unusedFunction)` -/
+  | consumerGated
   deriving DecidableEq, Repr
 
 def fieldRole : String → Option FieldRole
@@ -252,16 +257,23 @@ def fieldRole : String → Option FieldRole
   | "includePaths" => some .throughTokens
   | "inlineSuppressions" => some (.via "suppressions")
   | "vfOptions" => some (.via "checkLevel")
+  | "checks:unusedFunction-" => some .consumerGated
   | _ => none
+
+/-- a `--disable=` handler writes the same member as `--enable=`; the translator marks the switch-off direction with a trailing `-` -/
+def baseField (f : String) : String :=
+  match f.toList.reverse with
+  | '-' :: r => String.ofList r.reverse
+  | _ => f
 
 /-- `f` cannot make a cached result stale, given the hashed fields and the severities any code asks about -/
 def fieldCovered (hashFields readSev : List String) (f : String) : Bool :=
-  hashFields.contains f
+  hashFields.contains (baseField f)
   || (match fieldRole f with
       | some (.via g) => hashFields.contains g
       | some _ => true
       | none => false)
-  || ("severity:".toList.isPrefixOf f.toList && !readSev.contains f)
+  || ("severity:".toList.isPrefixOf f.toList && !readSev.contains (baseField f))
 
 def optionCovered (hashFields readSev : List String) (o : OptionUse) : Bool := o.fields.all (fieldCovered hashFields readSev)
 
